@@ -221,20 +221,78 @@ def holders : Nat → List ROp → Nat
   | n, .rclose _ :: ops => holders (n - 1) ops
   | n, .rfault :: ops => holders n ops
 
-/-! ## SharedSinkProvider -/
+/-! ## SharedSinkProvider
+
+  The provider over a next provider whose sinks are real enough to be opened, closed and to
+  fail: an underlying sink is created `Idle`; `Open()` makes it `Open` unless it is `Closed`
+  (a closed sink stays closed, its open result is a failure); `Close()` and a transport fault
+  make it `Closed`.  A sink handed out under a sharing key is wrapped in a `RefCountedSink`
+  whose `state` is the underlying sink's state.  Holders keep the (strong) reference they got
+  from `CreateSink`, call `Open()` / `Close()` on it and drop it. -/
 
 /-- what a holder keeps alive: (holder, key it asked with, sink id) -/
 abbrev Hold := Nat × Nat × Nat
 
+/-- an underlying sink created by the next provider, together with the `RefCountedSink` around
+    it if it was handed out under a sharing key -/
+structure PSink where
+  st : SSt := .idle
+  opens : Nat := 0        -- `Open()` calls seen by the underlying sink
+  closes : Nat := 0       -- `Close()` calls seen by the underlying sink
+  shared : Bool := false  -- wrapped in a `RefCountedSink`
+  rc : Nat := 0           -- the wrapper's `_ref_count` (stays 0 for a sink that is not shared)
+  deriving Repr, DecidableEq, Inhabited
+
+/-- the underlying sink's `Open()` -/
+def PSink.uopen (s : PSink) : PSink :=
+  { s with opens := s.opens + 1, st := if s.st = .closed then .closed else .opened }
+
+/-- the underlying sink's `Close()` -/
+def PSink.uclose (s : PSink) : PSink := { s with closes := s.closes + 1, st := .closed }
+
+/-- a transport fault of the underlying sink -/
+def PSink.ufault (s : PSink) : PSink := { s with st := .closed }
+
+/-- a holder calls `Open()` on what it holds: `RefCountedSink.Open` or the plain sink's `Open` -/
+def PSink.hopen (s : PSink) : PSink :=
+  if s.shared then
+    if s.rc = 0 then { s with rc := 1 }.uopen else { s with rc := s.rc + 1 }
+  else s.uopen
+
+/-- a holder calls `Close()` on what it holds -/
+def PSink.hclose (s : PSink) : PSink :=
+  if s.shared then
+    if s.rc = 0 then s
+    else if s.rc = 1 then { s with rc := 0 }.uclose
+    else { s with rc := s.rc - 1 }
+  else s.uclose
+
+/-- the sink with id `id` (ids 1, 2, …; anything else: a sink nobody ever created) -/
+def sinkAt (l : List PSink) (id : Nat) : PSink :=
+  match id with
+  | 0 => {}
+  | k + 1 => l.getD k {}
+
+def modAt (l : List PSink) (id : Nat) (f : PSink → PSink) : List PSink :=
+  match id with
+  | 0 => l
+  | k + 1 => l.modify k f
+
 structure Prov where
-  created : Nat := 0                 -- sinks created by the next provider (ids 1, 2, …)
+  sinks : List PSink := []           -- sinks created by the next provider (ids 1, 2, …)
   cache : List (Nat × Nat) := []     -- the weak cache: (key, sink id), insertion order
   held : List Hold := []             -- strong references held by the holders
   deriving Repr, DecidableEq, Inhabited
 
+/-- `CreateSink` calls seen by the next provider -/
+def Prov.created (p : Prov) : Nat := p.sinks.length
+
 inductive POp where
   | create (h key : Nat)   -- holder h: `held[h] = provider.CreateSink(properties(key))`; key 0 = no sharing
   | drop (h : Nat)         -- holder h drops its reference
+  | hopen (h : Nat)        -- holder h calls `Open()` on the sink it holds
+  | hclose (h : Nat)       -- holder h calls `Close()` on the sink it holds
+  | fault (s : Nat)        -- the underlying sink with id s fails (transport fault)
   deriving Repr, DecidableEq, Inhabited
 
 def lookup (c : List (Nat × Nat)) (key : Nat) : Option Nat :=
@@ -248,19 +306,33 @@ def alive (held : List Hold) (s : Nat) : Bool := held.any (fun h => h.2.2 == s)
 def collect (held : List Hold) (c : List (Nat × Nat)) : List (Nat × Nat) :=
   c.filter (fun e => alive held e.2)
 
-/-- returns the new state and the id of the sink handed out (0 for `drop`) -/
+/-- what holder `h` holds -/
+def heldBy (held : List Hold) (h : Nat) : Option Hold := held.find? (fun x => x.1 == h)
+
+/-- returns the new state and the id of the sink concerned: the one handed out (`create`), the
+    one the holder called (`hopen`, `hclose`; 0 if it holds nothing), 0 otherwise -/
 def Prov.step (p : Prov) : POp → Prov × Nat
   | .create h key =>
-    let (s, created, cache) :=
-      if key = 0 then (p.created + 1, p.created + 1, p.cache)
+    let (s, sinks, cache) :=
+      if key = 0 then (p.sinks.length + 1, p.sinks ++ [{}], p.cache)
       else match lookup p.cache key with
-        | some s => (s, p.created, p.cache)
-        | none => (p.created + 1, p.created + 1, p.cache ++ [(key, p.created + 1)])
+        | some s => (s, p.sinks, p.cache)
+        | none => (p.sinks.length + 1, p.sinks ++ [{ shared := true }],
+                   p.cache ++ [(key, p.sinks.length + 1)])
     let held := p.held.filter (fun x => x.1 != h) ++ [(h, key, s)]
-    ({ created := created, cache := collect held cache, held := held }, s)
+    ({ sinks := sinks, cache := collect held cache, held := held }, s)
   | .drop h =>
     let held := p.held.filter (fun x => x.1 != h)
     ({ p with cache := collect held p.cache, held := held }, 0)
+  | .hopen h =>
+    match heldBy p.held h with
+    | some x => ({ p with sinks := modAt p.sinks x.2.2 PSink.hopen }, x.2.2)
+    | none => (p, 0)
+  | .hclose h =>
+    match heldBy p.held h with
+    | some x => ({ p with sinks := modAt p.sinks x.2.2 PSink.hclose }, x.2.2)
+    | none => (p, 0)
+  | .fault s => ({ p with sinks := modAt p.sinks s PSink.ufault }, 0)
 
 def Prov.run (p : Prov) : List POp → Prov
   | [] => p
